@@ -225,7 +225,19 @@ def run(model, col, tier):
                   f"a path calls OnEnterFunction {ne}x and OnLeaveFunction {nl}x", GEN, vf)
     oe = gctx.own_method("OnEnterFunction")
     ol = gctx.own_method("OnLeaveFunction")
-    for evs, status in paths(oe.body):
+    # an option that every call site sets to the same literal (or leaves at its literal default) is folded: `exported=True`
+    from ..sem import constant_params as _cp73
+
+    cpar = _cp73(model, oe)
+
+    def _fold73(t_):
+        if isinstance(t_, ast.Name) and t_.id in cpar:
+            return bool(cpar[t_.id])
+        if isinstance(t_, ast.UnaryOp) and isinstance(t_.op, ast.Not) and isinstance(t_.operand, ast.Name) and t_.operand.id in cpar:
+            return not bool(cpar[t_.operand.id])
+        return None
+
+    for evs, status in paths(oe.body, fold=_fold73):
         cs = calls_on_path(evs)
         byname = {}
         for c in cs:
